@@ -33,7 +33,7 @@ import (
 	"verifh/kit"
 )
 
-const nDims = 11 // 7 yes/no dimensions + a 2-bit annotation shape (bits 7-8) + "no labels at all" (bit 9) + "an annotation with an empty value is added" (bit 10)
+const nDims = 12 // (bit 11: a spec field CLEARED - set in the stored object, unset in the submitted one) + 7 yes/no dimensions + a 2-bit annotation shape (bits 7-8) + "no labels at all" (bit 9) + "an annotation with an empty value is added" (bit 10)
 
 var dimNames = []string{"labels", "annotations", "spec-scalar", "spec-nested", "status", "generation", "finalizers", "annotation-key-removed", "annotation-key-added"}
 
@@ -99,6 +99,9 @@ func ucKind(main rest.RESTCreateUpdateStrategy) kind {
 			if diff&8 != 0 {
 				o.Spec.Servers[1].Endpoint = "https://c:1"
 			}
+			if diff&2048 != 0 {
+				o.Spec.ClientConfig.QPS = 0 // cleared: the submitted spec is the stored one minus a value
+			}
 			// UpstreamClusterStatus has no fields: bit 16 cannot change it
 			return o
 		},
@@ -124,6 +127,9 @@ func rlcKind(name string, main rest.RESTCreateUpdateStrategy, subStatus bool) ki
 			}
 			if diff&16 != 0 {
 				o.Status.LimitItemStatuses[0].RequestLevel = 90
+			}
+			if diff&2048 != 0 {
+				o.Spec.Instance = "" // cleared
 			}
 			return o
 		},
@@ -156,6 +162,9 @@ func diffNames(d uint) string {
 	}
 	if d&1024 != 0 {
 		s += "annotation-with-empty-value "
+	}
+	if d&2048 != 0 {
+		s += "spec-field-cleared "
 	}
 	if s == "" {
 		return "(none)"
